@@ -323,7 +323,7 @@ func (g *c09Gen) action() bool {
 	var stmts []*ast.Node
 	label := ""
 	g.cur = &st
-	switch k := g.n(0, 24, "action"); {
+	switch k := g.n(0, 25, "action"); {
 	case k <= 1:
 		v := c09Vars[g.n(0, len(c09Vars)-1, "v")]
 		stmts = append(stmts, ast.ExprS(ast.Set(ast.Id(v), g.value(st.Globals))))
@@ -439,6 +439,19 @@ func (g *c09Gen) action() bool {
 			stmts = append(stmts, ast.Print(ast.Str("R"), g.reader(st)))
 			label = "read-only"
 		}
+	case k == 25:
+		// two stores below one missing intermediate in a single statement: the inner
+		// assignment creates the intermediate, the outer one adds to it
+		u := c09Unset[g.n(0, len(c09Unset)-1, "chainvar")]
+		base := rapid.SampledFrom([]*ast.Node{ast.Mem(ast.Id(u), "ch"), ast.Mem(ast.Id("v3"), "newch"), ast.Idx(ast.Id("v2"), ast.Num("5")), ast.Mem(ast.Dollar(), "newch")}).Draw(g.t, "chainbase").Clone()
+		g.uset[u] = true
+		outer := ast.Mem(base.Clone(), "first")
+		inner := ast.Mem(base.Clone(), "second")
+		if g.b("chainidx") {
+			outer, inner = ast.Idx(ast.Mem(base.Clone(), "list"), ast.Num("0")), ast.Idx(ast.Mem(base.Clone(), "list"), ast.Num("2"))
+		}
+		stmts = append(stmts, ast.ExprS(ast.Set(ast.Id("tmp"), ast.Num("0"))), ast.ExprS(ast.Set(outer, ast.Set(inner, g.scalar()))))
+		label = "two-stores-below-one-missing-intermediate"
 	case k == 24:
 		// a store below the value returned by a function: the result of a call is a
 		// value, not a place in the container the function read it from
@@ -656,6 +669,12 @@ func TestC09(t *testing.T) {
 			ls = append(ls, l)
 		}
 		runDiff(rec, rt, "locality", c, true, func(*diffResult) bool { return c09Nontrivial(labels, c) }, ls...)
+	})
+	// sharing at every size: a long array held by two variables, an object member and the
+	// document, changed in long runs of pushes / pops through alternating references
+	check(rec, "long-shared", scale(600, 200000), func(rt *rapid.T) {
+		c := genC15Long(rt)
+		runDiff(rec, rt, "locality", c, false, func(*diffResult) bool { return true }, "long-shared-array")
 	})
 	check(rec, "pure-read-random", scale(6000, 3000000), func(rt *rapid.T) {
 		c := genC09Pure(rt)
